@@ -758,25 +758,25 @@ Lemma repo_T_lit k b p l : at_ b p (lit_text k ++ l) ->
 Proof.
   intros Hat. pose proof (at_len _ _ _ Hat) as HL. rewrite app_length in HL.
   unfold skip_literal, json_literals. cbn [lit_loop].
-  assert (M : forall txt n, n <= length (lit_text k ++ l) -> n <= length (cstr txt) ->
-            memcmp_eq b n p 0 (cstr txt) = Ok (bytes_eqb (firstn n (lit_text k ++ l)) (firstn n (cstr txt)))).
-  { intros txt n H1 H2. exact (memcmp_at n b p _ (cstr txt) 0 (cstr txt) Hat (at_zero _) H1 H2). }
+  assert (M : forall txt n, n <= length (lit_text k ++ l) -> n <= length txt ->
+            memcmp_eq b n p 0 txt = Ok (bytes_eqb (firstn n (lit_text k ++ l)) (firstn n txt))).
+  { intros txt n H1 H2. exact (memcmp_at n b p _ txt 0 txt Hat (at_zero _) H1 H2). }
   destruct k; cbn [lit_text length app] in *.
   - assert (E : (5 <=? length b - p) = true) by (apply Nat.leb_le; lia). rewrite E.
-    rewrite M by (unfold cstr; cbn [length app]; lia). unfold cstr; cbn [bind firstn bytes_eqb app N.eqb Pos.eqb andb]. exact (at_fwd _ _ 5 _ Hat ltac:(cbn [length]; lia)).
+    rewrite M by (unfold cstr; cbn [length app]; lia). cbn [bind firstn bytes_eqb cstr app N.eqb Pos.eqb andb]. exact (at_fwd _ _ 5 _ Hat ltac:(cbn [length]; lia)).
   - destruct (5 <=? length b - p) eqn:E5.
-    + apply Nat.leb_le in E5. rewrite M by (unfold cstr; cbn [length app]; lia). unfold cstr; cbn [bind firstn bytes_eqb app N.eqb Pos.eqb andb].
+    + apply Nat.leb_le in E5. rewrite M by (unfold cstr; cbn [length app]; lia). cbn [bind firstn bytes_eqb cstr app N.eqb Pos.eqb andb].
       assert (E : (4 <=? length b - p) = true) by (apply Nat.leb_le; lia). rewrite E.
-      rewrite M by (unfold cstr; cbn [length app]; lia). unfold cstr; cbn [bind firstn bytes_eqb app N.eqb Pos.eqb andb]. exact (at_fwd _ _ 4 _ Hat ltac:(cbn [length]; lia)).
+      rewrite M by (unfold cstr; cbn [length app]; lia). cbn [bind firstn bytes_eqb cstr app N.eqb Pos.eqb andb]. exact (at_fwd _ _ 4 _ Hat ltac:(cbn [length]; lia)).
     + assert (E : (4 <=? length b - p) = true) by (apply Nat.leb_le; lia). rewrite E.
-      rewrite M by (unfold cstr; cbn [length app]; lia). unfold cstr; cbn [bind firstn bytes_eqb app N.eqb Pos.eqb andb]. exact (at_fwd _ _ 4 _ Hat ltac:(cbn [length]; lia)).
+      rewrite M by (unfold cstr; cbn [length app]; lia). cbn [bind firstn bytes_eqb cstr app N.eqb Pos.eqb andb]. exact (at_fwd _ _ 4 _ Hat ltac:(cbn [length]; lia)).
   - assert (E : (4 <=? length b - p) = true) by (apply Nat.leb_le; lia).
     destruct (5 <=? length b - p) eqn:E5.
-    + apply Nat.leb_le in E5. rewrite M by (unfold cstr; cbn [length app]; lia). unfold cstr; cbn [bind firstn bytes_eqb app N.eqb Pos.eqb andb]. rewrite E.
-      rewrite M by (unfold cstr; cbn [length app]; lia). unfold cstr; cbn [bind firstn bytes_eqb app N.eqb Pos.eqb andb]. rewrite E.
-      rewrite M by (unfold cstr; cbn [length app]; lia). unfold cstr; cbn [bind firstn bytes_eqb app N.eqb Pos.eqb andb]. exact (at_fwd _ _ 4 _ Hat ltac:(cbn [length]; lia)).
-    + rewrite E. rewrite M by (unfold cstr; cbn [length app]; lia). unfold cstr; cbn [bind firstn bytes_eqb app N.eqb Pos.eqb andb]. rewrite E.
-      rewrite M by (unfold cstr; cbn [length app]; lia). unfold cstr; cbn [bind firstn bytes_eqb app N.eqb Pos.eqb andb]. exact (at_fwd _ _ 4 _ Hat ltac:(cbn [length]; lia)).
+    + apply Nat.leb_le in E5. rewrite M by (unfold cstr; cbn [length app]; lia). cbn [bind firstn bytes_eqb cstr app N.eqb Pos.eqb andb]. rewrite E.
+      rewrite M by (unfold cstr; cbn [length app]; lia). cbn [bind firstn bytes_eqb cstr app N.eqb Pos.eqb andb]. Show. rewrite E.
+      rewrite M by (unfold cstr; cbn [length app]; lia). cbn [bind firstn bytes_eqb cstr app N.eqb Pos.eqb andb]. exact (at_fwd _ _ 4 _ Hat ltac:(cbn [length]; lia)).
+    + rewrite E. rewrite M by (unfold cstr; cbn [length app]; lia). cbn [bind firstn bytes_eqb cstr app N.eqb Pos.eqb andb]. rewrite E.
+      rewrite M by (unfold cstr; cbn [length app]; lia). cbn [bind firstn bytes_eqb cstr app N.eqb Pos.eqb andb]. exact (at_fwd _ _ 4 _ Hat ltac:(cbn [length]; lia)).
 Qed.
 
 (* ================= the theorems, for the code as it is now ================= *)
